@@ -37,8 +37,12 @@ type c05FlatArgs struct {
 
 func c05Load(files map[string]string, main, wd string) (out map[string]any, cls string) {
 	req := core.LoadReq{Files: files, ConfigFiles: []string{main}, WorkingDir: wd, ProjectName: "p"}
-	p, root, err := req.Load()
+	root, err := c05Materialize(files)
 	defer os.RemoveAll(root)
+	if err != nil {
+		return map[string]any{"err": err.Error()}, "err:materialize"
+	}
+	p, err := req.LoadIn(root)
 	if err != nil {
 		return map[string]any{"err": core.ScrubErr(err, root)}, "err:" + c05ErrClass(err)
 	}
@@ -283,7 +287,9 @@ func c05AttrPool() []c05Attr {
 		return b
 	}
 	return []c05Attr{
-		{"image", func(r *rand.Rand, i int, pa func(string) string, _ map[string]string, _ string) any { return "img-" + s(i) }},
+		{"image", func(r *rand.Rand, i int, pa func(string) string, _ map[string]string, _ string) any {
+			return "img-" + s(i)
+		}},
 		{"command", func(r *rand.Rand, i int, pa func(string) string, _ map[string]string, _ string) any {
 			return either(r, []any{"run", s(i)}, "run "+s(i))
 		}},
@@ -299,8 +305,12 @@ func c05AttrPool() []c05Attr {
 		{"ports", func(r *rand.Rand, i int, pa func(string) string, _ map[string]string, _ string) any {
 			return either(r, []any{"80" + s(i) + ":80"}, []any{map[string]any{"target": 80 + i, "published": "81" + s(i)}})
 		}},
-		{"expose", func(r *rand.Rand, i int, pa func(string) string, _ map[string]string, _ string) any { return []any{"90" + s(i)} }},
-		{"cap_add", func(r *rand.Rand, i int, pa func(string) string, _ map[string]string, _ string) any { return []any{"CAP_" + s(i)} }},
+		{"expose", func(r *rand.Rand, i int, pa func(string) string, _ map[string]string, _ string) any {
+			return []any{"90" + s(i)}
+		}},
+		{"cap_add", func(r *rand.Rand, i int, pa func(string) string, _ map[string]string, _ string) any {
+			return []any{"CAP_" + s(i)}
+		}},
 		{"dns", func(r *rand.Rand, i int, pa func(string) string, _ map[string]string, _ string) any {
 			return either(r, "10.0.0."+s(i), []any{"10.0.0." + s(i)})
 		}},
@@ -348,10 +358,16 @@ func c05AttrPool() []c05Attr {
 		{"depends_on", func(r *rand.Rand, i int, pa func(string) string, _ map[string]string, _ string) any {
 			return either(r, []any{"dep"}, map[string]any{"dep2": map[string]any{"condition": "service_healthy"}})
 		}},
-		{"hostname", func(r *rand.Rand, i int, pa func(string) string, _ map[string]string, _ string) any { return "h-" + s(i) }},
-		{"shm_size", func(r *rand.Rand, i int, pa func(string) string, _ map[string]string, _ string) any { return s(64+i) + "m" }},
+		{"hostname", func(r *rand.Rand, i int, pa func(string) string, _ map[string]string, _ string) any {
+			return "h-" + s(i)
+		}},
+		{"shm_size", func(r *rand.Rand, i int, pa func(string) string, _ map[string]string, _ string) any {
+			return s(64+i) + "m"
+		}},
 		{"privileged", func(r *rand.Rand, i int, pa func(string) string, _ map[string]string, _ string) any { return i%2 == 0 }},
-		{"working_dir", func(r *rand.Rand, i int, pa func(string) string, _ map[string]string, _ string) any { return "/w-" + s(i) }},
+		{"working_dir", func(r *rand.Rand, i int, pa func(string) string, _ map[string]string, _ string) any {
+			return "/w-" + s(i)
+		}},
 		{"develop", func(r *rand.Rand, i int, pa func(string) string, _ map[string]string, _ string) any {
 			return map[string]any{"watch": []any{map[string]any{"action": "rebuild", "path": pa("./w-" + s(i))}}}
 		}},
@@ -509,6 +525,8 @@ func genOracles(ctx *core.Ctx) {
 	}
 	// single-attribute placements: each attribute alone, at every subset of positions of a 3-element cross-directory chain
 	genPlacements(ctx)
+	// ---- inherited short-form depends_on, one entry overridden in long form: the others keep their defaults
+	genDeps(ctx)
 	// ---- cycles, missing bases, missing files
 	genRejects(ctx)
 }
@@ -617,6 +635,30 @@ func genRejects(ctx *core.Ctx) {
 					shape = "tail+" + shape
 				}
 				emit("cycle", fmt.Sprintf("len%d:%s:v%d", k, shape, variant), all, nil)
+			}
+		}
+	}
+	// ---- the main file referenced by its own absolute name ($ROOT is replaced when the tree is written): a chain that
+	// re-enters the main file at another service is acyclic and must resolve; re-entering at the same service is a cycle
+	absMain := "$ROOT/" + c05Main
+	for _, via := range []string{"proj/o.yaml", "proj/sub/p.yaml"} {
+		for variant := 0; variant < 2; variant++ {
+			back := "b"
+			if variant == 1 {
+				back = "a" // a@main → x@via → a@main: a genuine cycle
+			}
+			a := link(c05Node{File: c05Main, Name: "a", Attrs: img(0)}, c05Node{File: via, Name: "x"}, true)
+			b := c05Node{File: c05Main, Name: "b", Attrs: map[string]any{"image": "img-b", "hostname": "hb"}}
+			x := c05Node{File: via, Name: "x", Attrs: map[string]any{"cap_add": []any{"CAP_X"}}, HasRaw: true,
+				RawExt: map[string]any{"service": back, "file": absMain}}
+			t, main := buildTree([]c05Node{a, b, x})
+			ctx.Count("abs-main-reference")
+			ctx.Add("c05.apply", c05ApplyArgs{c05Tree: t, Dict: core.EncodeVal(main)})
+			ctx.Add("c05.order", c05ApplyArgs{c05Tree: t, Dict: core.EncodeVal(main)})
+			if variant == 1 {
+				ctx.Add("c05.reject", c05RejectArgs{c05Tree: t, Expect: "cycle", Shape: "abs-main:" + short[via]})
+			} else {
+				ctx.Add("c05.dep", c05DepArgs{c05Tree: t, Service: "a", Want: map[string]c05DepWant{}, Shape: "abs-main:" + short[via]})
 			}
 		}
 	}
